@@ -110,7 +110,7 @@ def one_case(ctx, ws, prep, pattern, probe=False):
 
 def run_shard(ctx):
     d = drive.Driver(ctx, feat, flags="none", styles=("mixed", "dups", "runs"))
-    n = ctx.share(1500, 40000)
+    n = ctx.share(2000, 250000)
     done = 0
     while done < n:
         prep = d.new_listing()
